@@ -27,6 +27,7 @@ import (
 	"strings"
 	"sync"
 
+	"github.com/ajitpratap0/GoSQLX/pkg/formatter"
 	"github.com/ajitpratap0/GoSQLX/pkg/gosqlx"
 	"github.com/ajitpratap0/GoSQLX/pkg/models"
 	"github.com/ajitpratap0/GoSQLX/pkg/sql/parser"
@@ -58,7 +59,7 @@ func Check() *common.Check {
 		Rule: "static: one case per strongly connected component of the call graph of pkg/sql/parser + pkg/sql/tokenizer (obligation: no cycle survives deleting the calls made under a depth guard), " +
 			"one case per function that takes part in recursion (obligation: some nesting family drives it, measured on the stack at the parser's cancellation polls), limit constants, cross-check against `callgraph -algo=static` (thorough: + cha dynamic edges); " +
 			"dynamic: every (wrapper production x holding clause) family at every depth 1…130, 200, 500, 1000 (thorough: 10^4, 10^5 and the largest depth the token/size limits allow for each wrapper in its primary clause and each clause with the parenthesis wrapper); " +
-			"limits: inputs of MaxInputSize-1/0/+1 bytes (thorough -2…+2, x2) in 4 shapes and MaxTokens-1/0/+1 tokens (thorough -2…+2, 3 shapes) through Tokenize, TokenizeContext and gosqlx.Parse; " +
+			"limits: inputs of MaxInputSize-1/0/+1 bytes (thorough -2…+2, x2) in 7 shapes (also padding before / after a short statement) and MaxTokens-1/0/+1 tokens (thorough -2…+2, 3 shapes) through 16 text entry points (tokenizer, gosqlx, parser.Validate* / Parse*, formatter); " +
 			"distinct = distinct (family, depth) / (shape, size, entry point) / graph component; non-trivial = input accepted, or rejected with a limit error (E1006/E1007/E2007/CTE depth), or a static obligation",
 		Assume: []string{
 			"call edges through stored function values are resolved only at the place where the function is mentioned (cross-checked against callgraph -algo=static; thorough adds the intra-library dynamic edges of -algo=cha)",
@@ -722,6 +723,30 @@ var entries = []entry{
 		_, err := gosqlx.Parse(string(b))
 		return err
 	}},
+	// every other entry point that takes SQL text: the limit belongs to the input the caller passed, whatever a
+	// front end does to it (trimming, splitting, converting) before it reaches the tokenizer
+	{"gosqlx.Validate", func(b []byte) error { return gosqlx.Validate(string(b)) }},
+	{"gosqlx.ParseWithContext", func(b []byte) error {
+		_, err := gosqlx.ParseWithContext(context.Background(), string(b))
+		return err
+	}},
+	{"gosqlx.ParseWithRecovery", func(b []byte) error {
+		_, errs := gosqlx.ParseWithRecovery(string(b))
+		if len(errs) > 0 {
+			return errs[0]
+		}
+		return nil
+	}},
+	{"gosqlx.ParseMultiple", func(b []byte) error { _, err := gosqlx.ParseMultiple([]string{string(b)}); return err }},
+	{"gosqlx.Format", func(b []byte) error { _, err := gosqlx.Format(string(b), gosqlx.DefaultFormatOptions()); return err }},
+	{"parser.Validate", func(b []byte) error { return parser.Validate(string(b)) }},
+	{"parser.ValidateBytes", func(b []byte) error { return parser.ValidateBytes(b) }},
+	{"parser.ValidateWithDialect", func(b []byte) error { return parser.ValidateWithDialect(string(b), "postgresql") }},
+	{"parser.ValidateBytesWithDialect", func(b []byte) error { return parser.ValidateBytesWithDialect(b, "mysql") }},
+	{"parser.ParseBytes", func(b []byte) error { _, err := parser.ParseBytes(b); return err }},
+	{"parser.ParseBytesWithTokens", func(b []byte) error { _, _, err := parser.ParseBytesWithTokens(b); return err }},
+	{"parser.ParseWithDialect", func(b []byte) error { _, err := parser.ParseWithDialect(string(b), "postgresql"); return err }},
+	{"formatter.Format", func(b []byte) error { _, err := formatter.New(formatter.Options{}).Format(string(b)); return err }},
 }
 
 // pad returns n bytes of ch with a newline every 997 bytes (short lines: the
@@ -747,6 +772,15 @@ func sizeShape(shape string, n int) []byte {
 		b.WriteString("SELECT")
 		b.Write(pad(n-len("SELECT")-1, ' '))
 		b.WriteString("1")
+	case "trailing-blanks":
+		b.WriteString("SELECT 1")
+		b.Write(pad(n-len("SELECT 1"), ' '))
+	case "leading-blanks":
+		b.Write(pad(n-len("SELECT 1"), ' '))
+		b.WriteString("SELECT 1")
+	case "trailing-comment":
+		b.WriteString("SELECT 1 --")
+		b.Write(bytes.Repeat([]byte{'x'}, n-len("SELECT 1 --")))
 	case "string":
 		b.WriteString("SELECT '")
 		b.Write(bytes.Repeat([]byte{'a'}, n-len("SELECT '")-1))
@@ -807,7 +841,7 @@ func limitCases(e *common.Enum) {
 		toks = []int{docTokens - 2, docTokens - 1, docTokens, docTokens + 1, docTokens + 2}
 		tshapes = []string{"commas", "strings", "sums"}
 	}
-	for _, shape := range []string{"comment", "whitespace", "string", "identifiers"} {
+	for _, shape := range []string{"comment", "whitespace", "string", "identifiers", "trailing-blanks", "leading-blanks", "trailing-comment"} {
 		for _, n := range sizes {
 			for _, en := range entries {
 				shape, n, en := shape, n, en
